@@ -333,7 +333,7 @@ def play_hand(tid: int, spec: dict, rng: random.Random, pol: Policy, max_steps=4
         rec['create'] = {'out': out, 'post': {}, 'micro': []}
         return rec
     rec['cfg'] = pk.project_cfg(st, werr=werr, rake=spec.get('rake'),
-                                extra={'deckcards': sorted(card_int(c) for c in st.deck), 'variant': spec['variant']})
+                                extra={'deckcards': sorted(card_int(c) for c in st.deck), 'variant': spec['variant'], 'sb': spec.get('sb', 0), 'bb': spec.get('bb', 0), 'deck': games.deck_name(st.deck)})
     rec['create'] = {'out': 'ok', 'post': play.observe(st, 0), 'micro': mic}
     steps = rec['steps']
     k = 0
